@@ -671,6 +671,7 @@ class IrregularlyPartitionedArray(PartitionedArray):
         return IrregularlyPartitionedArray(partitions, stops)
 
     def __init__(self, partitions, stops=None):
+        partitions = list(partitions)
         if stops is None:
             nextpartitions = [x for x in partitions if len(x) != 0]
             if len(nextpartitions) == 0:
